@@ -69,19 +69,23 @@ CHECKS = {
 
 # layers added later (appended to the level text)
 EXTRA = {
- "C02": " Through the emulator's own dispatch: the bank-switching cache-pressure program (blocks of different length per bank) is block-stepped on the jit and interpreter builds and last_block_cycle_length must agree after every block while the translation area restarts.",
+ "C01": " Layer 5: C03's restart probe (translation area filled to every level, then the largest block and bank 1 at the address whose bank-2 block made the area restart) through the emulator's own dispatch, compared with the interpreter build.",
+ "C03": " Restart probe: the translation area is filled to every level from 4 MiB to 7.9 MiB with blocks of chosen length, then a whole bank of DAA (the longest translation) is entered, and bank 1 is executed at the address whose bank-2 block made the area restart; jit and interpreter builds must agree on registers, cycles and serial bytes.",
+ "C19": " History independence: the same valid file is loaded 300 times (5000 thorough) in one process under a lowered descriptor limit and must be accepted every time, with no descriptor left open.",
+ "C20": " Listings of 0xFFF0 to 0x30005 bytes get the same tiling check.",
+ "C02": " Through the emulator's own dispatch: the bank-switching cache-pressure program (blocks of different length per bank) is block-stepped on the jit and interpreter builds and last_block_cycle_length must agree after every block while the translation area restarts; C03's restart probe is judged on the cycle counts.",
  "C05": " Every instruction with operand bytes is also placed across the ends of ROM bank 0, the switchable bank and work-RAM bank 0 and in the switchable bank under 9 bank-register values (incl. values that wrap to banks 0/1), the other banks holding complemented bytes.",
  "C06": " All encodings are also executed from the switchable bank and the end of bank 0 under bank-register values 2, 5, 0x1F, 8, 0x10, 0 with complemented bytes in the other banks.",
- "C07": " Fourth pass: after a dispatch the handler's first step (update(), interpreter block, translated block) must deliver 4 x (5 + its instructions' machine cycles) clocks to the devices.",
- "C08": " Generated sequences also contain STOP with an arbitrary second byte.",
- "C11": " Files of 16 lengths around the declared size go through the loader main() uses; for whatever it accepts, every bank is selected and read across its whole window.",
- "C12": " Executed view: after every write of generated histories the interpreter build and the jit build (cache kept warm) execute LD BC,nn at 0x3FFE and LD B,n at 0x3FFF, whose operand byte at 0x4000 must be the visible bank's stamp.",
- "C13": " Program layer: generated programs on a whole core in three stepping modes; models::timer, fed with the reference machine's bus writes and clocks per step, must agree with DIV/TIMA/TMA/TAC/IF bit 2 after every step.",
- "C14": " Program layer: generated programs on a whole core in three stepping modes; LY, STAT and IF bits 0-1 must follow models::lcd at the delivered total after every step (with DMA, HALT and STOP in the programs).",
- "C15": " Whole-core layer: the scene is built by a guest program (direct stores or OAM DMA) in three stepping modes; two frames later the presented buffer must be the reference composition.",
+ "C07": " Fifth pass: with the timer armed or LYC = LY, the high-byte push lands on TAC / STAT / LYC (all 256 PC high bytes) and the source taken must be the highest-priority one pending after it. Fourth pass: after a dispatch the handler's first step (update(), interpreter block, translated block) must deliver 4 x (5 + its instructions' machine cycles) clocks to the devices.",
+ "C08": " Generated sequences also contain STOP with an arbitrary second byte and start from generated stack pointers, including those where a dispatch cancels itself.",
+ "C11": " Files of 16 lengths around the declared size go through the loader main() uses; for whatever it accepts, every bank is selected and read across its whole window. Device-register histories: generated stores to 0xFF00-0xFF7F / 0xFFFF interleaved with time, then every listed register written with a value set.",
+ "C12": " Executed view: after every write of generated histories the interpreter build and the jit build (cache kept warm) execute LD BC,nn at 0x3FFE and LD B,n at 0x3FFF, whose operand byte at 0x4000 must be the visible bank's stamp; across a restart of the translation area (C03's restart probe) the code that runs under bank 1 must be bank 1's.",
+ "C13": " Program layer: generated programs on a whole core in three stepping modes; models::timer, fed with the reference machine's bus writes and clocks per step, must agree with DIV/TIMA/TMA/TAC/IF bit 2 after every step. Batches go up to 2 000 000 clocks (closed-form reference for long ones).",
+ "C14": " Program layer: generated programs on a whole core in three stepping modes; LY, STAT and IF bits 0-1 must follow models::lcd at the delivered total after every step (with DMA, HALT and STOP in the programs). Batches go up to 2 000 000 clocks (28 frames).",
+ "C15": " Whole-core layer: the scene is built by a guest program (direct stores or OAM DMA) in three stepping modes; two frames later the presented buffer must be the reference composition. Earlier frames may rewrite the tile data during the vertical blank.",
  "C16": " Program layer: DMA left running under register code, long blocks, HALT and STOP on a whole core in three stepping modes; all 160 OAM bytes must match the byte-per-machine-cycle model after every step.",
  "C17": " Program layer: generated programs with injected button events on a whole core; P1 and IF bit 4 must follow models::joypad after every step (the request survives the dispatch of other sources).",
- "C18": " In every stepping mode the captured stream must also equal the stream of the reference CPU running the same program.",
+ "C18": " In every stepping mode the captured stream must also equal the stream of the reference CPU running the same program; a bank-switching cache-pressure program whose banks transmit their own byte, and C03's restart probe judged on the stream.",
 }
 
 def hooks_commits():
